@@ -175,8 +175,19 @@ def run(tier, fx=None, ck=None, control=False):
         if p in req_filters or "Vec<ImportRequest>" not in returns_ty(fx, f):
             continue
         for g in fx.body_group(f):
-            if any((t[1].get("d") or "").split("::")[-1] == "insert" and "HashSet" in (t[1].get("d") or "") for bi, t in g.calls()):
-                dedupers.add(p)
+            for bi, t in g.calls():
+                if (t[1].get("d") or "").split("::")[-1] == "insert" and "HashSet" in (t[1].get("d") or "") and len(t[2]) > 1 and t[2][1][0] in ("c", "m"):
+                    # the set is keyed by the resolved path of a request (a `seen` set over something else - the modules a walk has visited - is no de-duplication
+                    # of the request list)
+                    keyed = False
+                    for l in ancestors(g, t[2][1][1][0]):
+                        for (db, si, rv) in g.defs().get(l, []):
+                            if si != "T":
+                                for pl in F.rvalue_places(rv):
+                                    if any(x[2] == "resolved_path" for x in F.place_fields(pl)):
+                                        keyed = True
+                    if keyed:
+                        dedupers.add(p)
 
     def gate_sites(h, site_block, subject_anc):
         """(run_once_ok, deps_ok, why) for a site in function h whose module path has ancestors subject_anc"""
